@@ -13,6 +13,9 @@ CHECKS = {
     "C08": {"engine": "E1", "note": NOTE_E1, "text": "Same complete payload space as C07; for every accepted payload the real encoder must accept the decoded value and the re-decoded value must be equal (NaN-aware; text types modulo the documented '?' replacement). Exhaustive for payloads of <=2 octets, per-position for longer ones."},
     "C09": {"engine": "E1", "note": NOTE_E1, "text": "Every DPTNumeric class: every raw value of <=16-bit wire fields with fractional offsets, all power-of-two neighbourhoods for 32/64-bit, every representable DPT 9 value and all midpoints, every binary32 exponent for DPT 14; oracle in exact rational arithmetic against declared min/max/resolution."},
     "C10": {"engine": "E1", "note": NOTE_E1, "text": "Every DPTComplex/DPTEnum class over its decode image in the C07 space; as_dict()/member name through json.dumps(allow_nan=False)/loads, to_knx, from_knx must give an equal value."},
+    "C23": {"engine": "E2", "note": NOTE_E2, "text": "Explicit-state search of the real UDPTunnel / DeviceManagement receive handlers: every state (expected counter 0..255 x reconnect timer pending, route-back on/off) is reached by a real history from connect(); from each, every counter 0..255 and a foreign channel id is fed and acks / frames passed up / next state are compared with the three-way verdict of Tunnelling 2.6.1; frames racing the ConnectResponse and reconnects included. Complete over the 8-bit counter, so the per-transition verdict extends to all histories by induction on the canonical state."},
+    "C24": {"engine": "E2", "note": NOTE_E2, "text": "Real UDPTunnel.send_cemi (1-3 sends, concurrent or sequential, auto-reconnect on/off) against a simulated gateway; every schedule of gateway answers (ok/none/error/stale counter/other channel/twice/late/server disconnect; reconnect ok/late/refused/none) with <=2 (thorough <=3) deviations is executed to a 60 s horizon and the gateway log is checked against the sequencing/ack rules; 300-send wrap-around run."},
+    "C26": {"engine": "E2", "note": NOTE_E2, "text": "Real ConnectionHeartbeat under virtual time; the complete tree of request-outcome sequences (ok/error/no response/raise/gone, plus stop()/start() during a request) to depth 8 (thorough 11) against a reference automaton stepped in lock-step."},
 }
 
 NOT_APPLICABLE: dict[str, str] = {}
